@@ -43,8 +43,8 @@ PYAGREE = {
     'C08': ['MiscTimer', 'LayerTx'],
     'C09': ['AddressFns', 'AddressInit', 'LayerSend'],
     'C12': ['LayerTxHelpers', 'LayerQueues', 'Exec2Bridge', 'LayerSend'],
-    'C13': ['PyCan'],
-    'C14': ['LayerQueues', 'Exec2Bridge'],
+    'C13': ['PyCan', 'Threaded'],
+    'C14': ['LayerQueues', 'Exec2Bridge', 'Threaded'],
     'C10': ['LayerProcess', 'LayerWhole'],
     'C15': ['LayerTxHelpers'],
     'C16': ['AddressValidate', 'AddressInit'],
